@@ -21,7 +21,7 @@ CHECKS["C18"] = dict(
           "<= 4 replicas and length <= 10; non-trivial = logs diverging after a common prefix. executor: ExecuteScenario on real "
           "scenarios (4 replicas, 0..1 twins, 3 rule sets), reported Safe/Commits == reference over the reported NodeCommits. "
           "command line (unit c18cli): twinsGenerate / twinsRun --log-all write/execute exactly the announced scenarios, once each, "
-          "in one file or a directory of files readable by FromJSON. distinct = hash of the case. Concurrent drawing (TestC18ConcurrentDraw, and TestC18RaceConcurrentDraw under the race detector): 2..8 goroutines draw from ONE generator (what `twins run --concurrency N` does); what they were handed, as a multiset, must be exactly the sequential enumeration (no scenario twice, none missing, none foreign). CLI runs (TestC18CLI) also vary `--concurrency` 1..8 and run scenarios back from a file written by `twins generate` (`--input`), optionally asking for more scenarios than the file holds: every announced scenario is executed and logged exactly once, and the command ends without a panic."),
+          "in one file or a directory of files readable by FromJSON. distinct = hash of the case. Concurrent drawing (TestC18ConcurrentDraw, and TestC18RaceConcurrentDraw under the race detector): 2..8 goroutines draw from ONE generator (what `twins run --concurrency N` does); what they were handed, as a multiset, must be exactly the sequential enumeration (no scenario twice, none missing, none foreign). Long fault-free scenarios (TestC18LongScenarios): no twins, one node apart for 20..60 views and together with the others for 6..12 more, all rulesets: the report must say safe. CLI runs (TestC18CLI) also vary `--concurrency` 1..8 and run scenarios back from a file written by `twins generate` (`--input`), optionally asking for more scenarios than the file holds: every announced scenario is executed and logged exactly once, and the command ends without a panic."),
     assumptions=["scenario equality is equality of leaders and of the ordered partition lists (the JSON form); views that differ only in "
                  "the order of their partitions are counted as different (measured: class has-views-equal-up-to-partition-order)",
                  "ExecuteScenario is only observed reporting 'safe' on real runs (no unsafe run is available: the skipped TestFHSBug "
